@@ -154,12 +154,20 @@ def _(E, p):
 
     rg = _rgrid(5)
     c = E.arr("center", np.array([0.3, -0.2, 0.5]))
-    if p % 3 == 0:
+    v = p % 6
+    # lists and ndarrays, one entry or one per shell, supported values and values that resolve upward
+    if v == 0:
         g = AtomGrid(rg, degrees=E.lst("degrees", [3, 5, 5, 7, 3]), center=c, rotate=p % 7)
-    elif p % 3 == 1:
+    elif v == 1:
         g = AtomGrid(rg, degrees=E.arr("degrees_arr", np.array([5]), dtype=int), center=c)
-    else:
+    elif v == 2:
         g = AtomGrid(rg, degrees=None, sizes=E.lst("sizes", [6, 14, 14, 26, 6]), center=c)
+    elif v == 3:
+        g = AtomGrid(rg, degrees=E.arr("degrees_arr", np.array([3, 4, 6, 8, 10]), dtype=int), center=c, rotate=p % 7)
+    elif v == 4:
+        g = AtomGrid(rg, degrees=None, sizes=E.arr("sizes_arr", np.array([5, 13, 15, 27, 7]), dtype=int), center=c)
+    else:
+        g = AtomGrid(rg, degrees=E.lst("degrees", [2, 4, 6, 8, 4]), center=c, method=["lebedev", "spherical", "maxdet", "ahrens_beylkin"][(p // 6) % 4])
     return [g, np.asarray(g.indices, dtype=float), np.asarray(g.degrees, dtype=float), g.get_shell_grid(1), g.get_shell_grid(2, r_sq=False)]
 
 
@@ -170,7 +178,8 @@ def _(E, p):
     rg = _rgrid(8)
     c = E.arr("center", np.array([0.0, 0.1, -0.4]))
     if p % 2 == 0:
-        g = AtomGrid.from_pruned(rg, 1.0, E.lst("r_sectors", [0.5, 1.0, 1.5] if p % 4 == 0 else [1.0, 0.5, 1.5]), E.lst("d_sectors", [3, 5, 7, 5]), center=c, rotate=p % 7)
+        d_sec = E.lst("d_sectors", [3, 5, 7, 5]) if p % 3 else E.arr("d_sectors_arr", np.array([2, 4, 8, 6]), dtype=int)
+        g = AtomGrid.from_pruned(rg, 1.0, E.lst("r_sectors", [0.5, 1.0, 1.5] if p % 4 == 0 else [1.0, 0.5, 1.5]), d_sec, center=c, rotate=p % 7)
     else:
         g = AtomGrid.from_pruned(rg, 1.0, E.arr("r_sectors_arr", np.array([0.5, 1.5])), None, s_sectors=E.arr("s_sectors", np.array([6, 14, 6]), dtype=int), center=c)
     g2 = AtomGrid.from_preset(1 if p % 6 < 3 else 6, ["coarse", "medium", "fine"][p % 3], rgrid=_rgrid(10), center=c)
